@@ -268,6 +268,13 @@ impl Ctx {
             "readme" => b = b.readme("readme (as signed)".to_string()),
             "expires" => b = b.expires(expires + Duration::seconds(1)),
             "expires_minus" => b = b.expires(expires - Duration::seconds(1)),
+            "expires_day" => b = b.expires(expires + Duration::days(1)),
+            "expires_day_back" => b = b.expires(expires - Duration::days(1)),
+            "expires_year" | "expires_year_back" => {
+                use chrono::Datelike;
+                let dy = if variant == "expires_year" { 1 } else { -1 };
+                b = b.expires(expires.with_year(expires.year() + dy).unwrap_or(expires + Duration::days(365 * dy as i64)));
+            }
             "insp_run" => {
                 if let Some(i) = insps.first_mut() {
                     i.run = Command::from("true");
@@ -584,6 +591,11 @@ pub fn instant_of(off: i64) -> DateTime<Utc> {
         2_050_000_000 => t0() + Duration::days(292 * 365),
         2_060_000_000 => t0() + Duration::days(293 * 365),
         2_100_000_000 => ymd(9999, 12, 30, 23, 59, 59),
+        // calendar boundaries (all in the future): a Friday 1 January, a Monday 29 December, a leap day, a year's last second
+        2_010_000_000 => ymd(2100, 1, 1, 0, 0, 0),
+        2_011_000_000 => ymd(2098, 12, 29, 12, 0, 0),
+        2_012_000_000 => ymd(2096, 2, 29, 6, 30, 0),
+        2_013_000_000 => ymd(2099, 12, 31, 23, 59, 59),
         _ => t0() + Duration::seconds(off),
     }
 }
